@@ -284,7 +284,9 @@ Definition expand_block1 (b : ebody) (s : schema1) (partial : bool) (d : ditem) 
   | DAttr _ _ => xres_nil
   | DDynamic t fe it les content =>
       if existsb (fun h => str_eqb t (fst h)) (eb_hblocks b) then xres_nil else
-      match afind t (s_blocks s) with
+      (* `for i := range schema.Blocks { if … { blockS = &schema.Blocks[i] } }`: no break, the
+         LAST entry of the type wins (as for a static block and in hiddenBlocks) *)
+      match afind_last t (s_blocks s) with
       | None => ([], negb partial, false)                 (* "Unsupported block type" *)
       | Some nlabels =>
           match decode_spec b nlabels t fe it les with
@@ -302,7 +304,7 @@ Definition expand_block1 (b : ebody) (s : schema1) (partial : bool) (d : ditem) 
   | DDynBad None => xres_nil                              (* never returned by the native body *)
   | DDynBad (Some t) =>
       if existsb (fun h => str_eqb t (fst h)) (eb_hblocks b) then xres_nil else
-      match afind t (s_blocks s) with
+      match afind_last t (s_blocks s) with
       | None => ([], negb partial, false)
       | Some _ => ([], true, false)
       end
